@@ -419,6 +419,9 @@ pub struct IrqOpts {
     /// a STOP in the middle of the main body; the driver presses CONTINUE after some halted edges
     /// (a press made while the machine is halted must be served after the continue)
     pub mid_stop: bool,
+    /// the ISR's very first instruction is EI (a press latched during the entry sequence is then
+    /// served as a nested entry right after it: EI does not sample)
+    pub isr_ei_first: bool,
 }
 
 pub const IRQ_COUNTER: u8 = 0xCF;
@@ -738,6 +741,13 @@ pub fn hazard_program_ex(rng: &mut Rng, o: HazardOpts) -> (Vec<u8>, bool) {
         // interrupt service routine: counts in IRQ_COUNTER, preserves what it uses
         let isr = p.here();
         p.b[3] = isr.wrapping_sub(4);
+        if i.isr_ei_first {
+            // EI ; NOP ; DI - the NOP is where a press latched during the entry is taken (EI and DI
+            // do not sample); the counter update below stays atomic
+            p.ei();
+            p.nop();
+            p.di();
+        }
         p.push(0);
         if i.isr_work {
             p.push(1);
